@@ -16,6 +16,8 @@ pid, count = sys.argv[1], int(sys.argv[2]); seed = int(sys.argv[3]) if len(sys.a
 rng = random.Random(seed * 1000003 + int(pid[1:]))
 prop = next(json.loads(l) for l in (V / "properties.jsonl").read_text().splitlines() if json.loads(l)["id"] == pid)
 files = [f for f in prop["anchors"]["files"] if f.endswith(".c")]
+if os.environ.get("MUT_FILES"):          # MUT_FILES=<regex>: only these anchored files
+    files = [f for f in files if re.search(os.environ["MUT_FILES"], f)]
 try:
     cov = json.loads((V / "build" / "cov" / (pid + ".json")).read_text())
 except Exception:
